@@ -59,7 +59,7 @@ func child(mode string) {
 	// config.json also defines a user who is NOT an administrator
 	srv, err := vsrv.Start(vsrv.Config{Root: os.Getenv("VERIF_CHILD_DIR"), WritableGroups: true, AdminPass: adminPass, LogToFile: true,
 		ExtraConfig: map[string]any{"users": map[string]any{
-			"root":        map[string]any{"password": adminPass, "permissions": "admin"},
+			"root":       map[string]any{"password": adminPass, "permissions": "admin"},
 			confOperator: map[string]any{"password": confOperatorPass, "permissions": "op"},
 		}}})
 	if err != nil {
@@ -166,6 +166,8 @@ func main() {
 	}
 	run.Assume("sufficiency of a credential is decided from the property text and galene.md/galene-api.md: server administrator (config.json) and root-scoped administrator tokens (group \"\" with includeSubgroups) for everything; administrators of the addressed group (user entry with permission admin, administrator token whose scope covers the group, administrator JWT signed with the group's key for the group's audience) for everything below /.groups/<g>/; a user's own name and current password for that user's own /.password endpoint only")
 	run.Assume("not judged either way (only scanned for secrets): a user's current password presented under a different user name at that user's password endpoint; the parent group's users in an automatic subgroup; stateful tokens without a user name are not used; PUT on a token that does not exist with sufficient credentials is skipped (suspected handler abort, property C12)")
+	run.Assume("a named user whose stored password has type \"wildcard\": any Basic credential presents one of its current passwords (not judged); a request that presents no password at all (no header, bearer token, garbage) is insufficient; all its violations are reported under one signature (...:any:wildcard-password-user-password:no-password-presented)")
+	run.Assume("acceptance is asserted only for clearly sufficient credentials: a root-scoped administrator token refused (401) for a group that does not exist, and tokens refused at the trailing-slash form /.groups/<g>/, are counted, not reported")
 	run.Assume("a CORS preflight (OPTIONS) is required to have no effect and to disclose nothing; that it succeeds (2xx) is only counted")
 	run.Assume("stored items are compared as canonical JSON values (key order and escaping normalised) because galene re-encodes the whole file on every update; all fixture values are written in galene's own canonical forms")
 	run.Assume("public JWK members x, y, n are treated as token-verification keys too (the API has no endpoint that returns keys)")
